@@ -1206,6 +1206,11 @@ func (v *VMValue) ItemGet(ctx *Context, index *VMValue) *VMValue {
 
 			rIndex := index.MustReadInt()
 			_index := getClampRealIndex(ctx, rIndex, IntType(len(rstr)))
+			if _index >= IntType(len(rstr)) {
+				// 钳制后的下标可以等于长度(用于分片)，但取单个字符时已经越界
+				ctx.Error = errors.New("无法获取此下标")
+				return nil
+			}
 
 			newArr := string(rstr[_index : _index+1])
 			return NewStrVal(newArr)
